@@ -1096,6 +1096,8 @@ class Engine:
                 st.vn[('unrolling', fr.uid, bi)] = True
             elif prev is not None and (prev, bi) in back:
                 self.check_loop_inv(st, fr, bi, 'back-edge')
+                for h in self.hooks:
+                    h('backedge', st, fr, bi)
                 continue
             elif bi in loops and (prev is None or (prev, bi) not in back):
                 self.check_loop_inv(st, fr, bi, 'entry')
@@ -1497,6 +1499,7 @@ class Engine:
         if w:
             from . import inv
             inv.havoc_screen(self, st, w)
+        st.log(('loop-head', fr.func, head, fr.uid))
         # collections reachable from locals that the loop mutates through references: bump versions
         st.vn = {k: v for k, v in st.vn.items() if not (isinstance(k, tuple) and k and k[0] in ('contains', 'fact-coll'))}
 
